@@ -348,10 +348,12 @@ package jet
 //@   ensures PInv(t) && list != nil && next != nil && WFTag(next)
 
 //@ func (*Template).parseControl
-//@   props C02 C05
+//@   props C02 C05 C20
 //@   requires PInv(t)
 //@   modifies @Parse
 //@   ensures PInv(t) && list != nil
+//@   ensures [a-range-with-variables-keeps-its-collection-only-in-the-assignment] {C05,C20} context == "range" && set != nil ==> expression == nil
+//@   ensures [every-control-has-a-condition-or-an-assignment] {C05} set == nil ==> expression != nil
 
 //@ func (*Template).ifControl
 //@   props C02 C05
